@@ -1,15 +1,15 @@
-//! C02 — engine not implemented yet.
+//! C02 — engine over the shared ST-core corpus (see `stcore::judge`).
 
 use crate::fw::*;
 use crate::iso::WorkerFn;
 use serde_json::Value;
 
-pub fn run(_ctx: &Ctx) -> EngineResult {
-    machinery("engine C02 not implemented")
+pub fn run(ctx: &Ctx) -> EngineResult {
+    crate::stcore::judge::run_engine(ctx, "C02")
 }
 
-pub fn check_case(_case: &Value) -> Vec<Violation> {
-    Vec::new()
+pub fn check_case(case: &Value) -> Vec<Violation> {
+    crate::stcore::judge::replay("C02", case)
 }
 
 pub fn workers() -> Vec<(&'static str, WorkerFn)> {
